@@ -2,6 +2,7 @@
 
 mod clock;
 mod gen;
+mod guard;
 mod harness;
 mod link;
 mod mapdrv;
@@ -9,6 +10,9 @@ mod oracle;
 mod plan;
 mod run;
 mod trace;
+
+#[global_allocator]
+static ALLOC: guard::Guarded = guard::Guarded;
 
 fn main() {
     let args: Vec<String> = std::env::args().skip(1).collect();
